@@ -233,7 +233,7 @@ func c13Query1(id, qn int, c *c13Case, q *c13Query, base int64, expr, name strin
 
 	var reqs []*promfake.RangeReq
 	if expect > 0 {
-		reqs = pm.WaitRequests(seen+expect, 2*time.Second)[seen:]
+		reqs = pm.WaitRequests(seen+expect, 5*time.Second)[seen:]
 		if len(reqs) != len(q.Miss) {
 			// not what the model expects: give stragglers a moment so that the record is complete
 			c13Spin(20 * time.Millisecond)
@@ -266,16 +266,7 @@ func c13Query1(id, qn int, c *c13Case, q *c13Query, base int64, expr, name strin
 			order = append(order, r)
 		}
 	}
-	obs := make([]c13Slice, len(sorted))
-	exact := true
-	for i, r := range sorted {
-		obs[i] = c13Slice{S: r.StartMs/1000 - base, E: r.EndMs/1000 - base}
-		if r.StartMs%1000 != 0 || r.EndMs%1000 != 0 || r.StepMs != c.Step*1000 {
-			exact = false
-		}
-	}
-	emit(map[string]any{"ev": "Query", "id": id, "q": qn, "step": c.Step, "start": q.Start, "end": q.End, "unit": c.Unit,
-		"pres": c.Pres, "slices": obs, "exact": exact})
+	var released []*promfake.RangeReq
 	remaining := len(order)
 	for _, r := range order {
 		pm.Release(r)
@@ -287,7 +278,7 @@ func c13Query1(id, qn int, c *c13Case, q *c13Query, base int64, expr, name strin
 			runtime.Gosched()
 		}
 		c13Spin(40 * time.Microsecond) // time.Sleep has ~1 ms granularity here
-		emit(map[string]any{"ev": "Respond", "id": id, "k": idx[r]})
+		released = append(released, r)
 	}
 	pm.SetHold(false)
 	var rr c13Res
@@ -297,7 +288,29 @@ func c13Query1(id, qn int, c *c13Case, q *c13Query, base int64, expr, name strin
 		emit(map[string]any{"ev": "Hang", "id": id})
 		return false
 	}
-	late := len(pm.Requests()) - seen - len(reqs)
+	// The records are written only now, from everything the server saw for this query: a request that turned
+	// up late (after the wait above gave up) is part of the recorded slices, so the verdict never works from
+	// an incomplete picture; it just has no Respond record (binding only).
+	all := pm.Requests()[seen:]
+	late := len(all) - len(reqs)
+	sorted = promfake.SortedByStart(all)
+	idx = map[*promfake.RangeReq]int{}
+	for i, r := range sorted {
+		idx[r] = i + 1
+	}
+	obs := make([]c13Slice, len(sorted))
+	exact := true
+	for i, r := range sorted {
+		obs[i] = c13Slice{S: r.StartMs/1000 - base, E: r.EndMs/1000 - base}
+		if r.StartMs%1000 != 0 || r.EndMs%1000 != 0 || r.StepMs != c.Step*1000 {
+			exact = false
+		}
+	}
+	emit(map[string]any{"ev": "Query", "id": id, "q": qn, "step": c.Step, "start": q.Start, "end": q.End, "unit": c.Unit,
+		"pres": c.Pres, "slices": obs, "exact": exact})
+	for _, r := range released {
+		emit(map[string]any{"ev": "Respond", "id": id, "k": idx[r]})
+	}
 	ranges := []c13Range{}
 	errs := ""
 	if rr.err != nil {
